@@ -1399,22 +1399,30 @@ fn preprocess_initial_file(
     let mut condition_chain = ConditionChain::new();
 
     // Add initial macros
+    // These are processed like a #define line so they behave the same as a define in the file
+    // The text is registered as a file so the tokens have locations for diagnostics and token pasting
     for (name, value) in initial_defines {
-        let tokens = match TokenStream::new(value, SourceLocation::UNKNOWN)
+        let define_text = format!("{name} {value}");
+        let file_id = file_loader
+            .source_manager
+            .add_file(FileName("<command line>".to_string()), define_text.clone());
+        let base_location = file_loader
+            .get_source_location_from_file_offset(file_id, StreamLocation(0));
+
+        let tokens = match TokenStream::new(&define_text, base_location)
             .suppress_trailing_endline()
             .read_to_end()
         {
             Ok(tokens) => tokens,
-            Err(_) => return Err(PreprocessError::InvalidDefine(SourceLocation::UNKNOWN)),
+            Err(_) => return Err(PreprocessError::InvalidDefine(base_location)),
         };
 
-        macros.push(Macro {
-            name: name.to_string(),
-            is_function: false,
-            num_params: 0,
-            tokens,
-            location: SourceLocation::UNKNOWN,
-        });
+        let macro_def = Macro::parse(&tokens)?;
+
+        // Later defines replace earlier defines with the same name
+        macros.retain(|m: &Macro| m.name != macro_def.name);
+
+        macros.push(macro_def);
     }
 
     preprocess_included_file(
